@@ -1,16 +1,16 @@
 """C04 — a modified blob never decrypts to different plaintext."""
 from __future__ import annotations
-import prelude, gen, clientsim, refdc, toycrypto
+import refimpl, prelude, gen, clientsim, refdc, toycrypto
 from check import canon_exc, hx
 
 MANIFEST = {
-    "text": "Lean theorems: decrypt_dataflow (whatever _decrypt_blob returns is AES-GCM decryption — nonce from the blob's own parameters — of the whole enc_content under the CEK obtained by unwrapping the whole enc_cek with the KEK bound to the blob's key identifier; nothing else influences the output), tamper_safe / tamper_safe_api (under the stated integrity idealisation of AES-KW and AES-GCM, for EVERY byte string handed to unprotect a returned plaintext is the original); tied to the code by correspondence of ncrypt_unprotect_secret on mutants of valid blobs (every single-bit flip, byte substitution / insertion / deletion / truncation at every offset, multi-site mutations; every configuration, both layouts) comparing the outcome and, through the toy primitives' checks, the exact inputs that reach the primitives; a real-crypto oracle searches for a mutant that returns different bytes",
+    "text": "Lean theorems: decrypt_dataflow (whatever _decrypt_blob returns is AES-GCM decryption — nonce from the blob's own parameters — of the whole enc_content under the CEK obtained by unwrapping the whole enc_cek with the KEK bound to the blob's key identifier; nothing else influences the output), tamper_safe / tamper_safe_api (under the stated integrity idealisation of AES-KW and AES-GCM, for EVERY byte string handed to unprotect a returned plaintext is the original); tied to the code by correspondence of ncrypt_unprotect_secret on mutants of valid blobs (every single-bit flip, byte substitution / insertion / deletion / truncation at every offset, multi-site mutations; every configuration, both layouts) comparing the outcome and, through the toy primitives' checks, the exact inputs that reach the primitives; a real-crypto oracle searches for a mutant that returns different bytes, including keyless forgeries through a degenerate / foreign-group DH public value (D15, fixed); degenerate_dh_rejected / foreign_group_rejected state the repaired validation",
     "note": "Trusted: Lean kernel; model (differential tie); the integrity of AES-KW / AES-GCM is a premise (OnlyHonest), never a conclusion — partial in exactly that respect",
     "technique": "Lean 4 proof (dataflow + decision logic under an explicit idealisation) + mutant correspondence",
 }
-THEOREMS = ["DpapiNg.C04.decrypt_dataflow", "DpapiNg.C04.tamper_safe", "DpapiNg.C04.tamper_safe_api"]
+THEOREMS = ["DpapiNg.C04.decrypt_dataflow", "DpapiNg.C04.tamper_safe", "DpapiNg.C04.tamper_safe_api", "DpapiNg.C04.degenerate_dh_rejected", "DpapiNg.C04.foreign_group_rejected"]
 RULE = ("valid blobs of each configuration (4 hashes × {nonce, DH, P-256, P-384}) and both layouts; mutants: every single-bit flip (quick: every bit of one blob per mode + a stride on the others), "
-        "byte substitution / insertion / deletion / truncation at every offset (stride in quick), multi-site mutations; toy-crypto mutants compared with the model, real-crypto mutants checked by the oracle; "
+        "byte substitution / insertion / deletion / truncation at every offset (stride in quick), multi-site mutations, keyless DH forgeries (y ∈ {0, 1, p−1}, substituted modulus; CEK re-wrapped, content replaced); toy-crypto mutants compared with the model, real-crypto mutants checked by the oracle; "
         "distinct by mutant; non-trivial = mutant differs from the original")
 ASSUMPTIONS = ["OnlyHonest: only the honest (key, wrapped key) unwraps and only the honest (key, nonce, ciphertext‖tag) verifies (integrity of AES-KW / AES-GCM)"]
 
@@ -56,17 +56,53 @@ def mutants(ctx, blob, dense):
     return out
 
 
+def forgeries(blob, rec):
+    """multi-site mutations by a party holding NO key material: the sender's DH value in the key identifier is replaced by a
+    degenerate one (so that the shared secret is predictable), the CEK is re-wrapped under the KEK that follows from it and the
+    content is replaced.  (Unlike ECDH, where `cryptography` validates the point, the FFC value is taken from the blob as is.)"""
+    import hashlib, struct
+    from cryptography.hazmat.primitives.ciphers.aead import AESGCM
+    from cryptography.hazmat.primitives import keywrap
+    from dpapi_ng._blob import DPAPINGBlob
+    import dataclasses
+    b = DPAPINGBlob.unpack(blob)
+    ki = b.key_identifier.key_info
+    if rec.secret_algorithm != "DH" or ki[:4] != b"DHPB":
+        return []
+    kl = struct.unpack_from("<I", ki, 4)[0]
+    p_, g_ = int.from_bytes(ki[8:8 + kl], "big"), int.from_bytes(ki[8 + kl:8 + 2 * kl], "big")
+    out = []
+    # (label, field order put in the blob, public value put in the blob, shared secrets the forger bets on)
+    plans = [("y=1", p_, 1, [1]), ("y=0", p_, 0, [0]), ("y=p-1", p_, p_ - 1, [1, p_ - 1]), ("p=2,y=1", 2, 1, [1]), ("p=1", 1, 0, [0])]
+    for label, fo, y, bets in plans:
+        for z in bets:
+            try:
+                shared = z.to_bytes(kl, "big")
+                secret = refimpl.concat_kdf("sha256", shared, refimpl.SHA512ID + refimpl.PUBLABEL + refimpl.LABEL, 32)
+                kek = refimpl.kbkdf_hmac(rec.hash_name.lower(), secret, refimpl.LABEL, refimpl.PUBLABEL, 32)
+                cek = hashlib.sha256(b"forger cek " + label.encode()).digest()
+                iv = b.enc_content_parameters[4:16]
+                evil = b"forged by a party without keys"
+                kid = dataclasses.replace(b.key_identifier, key_info=refimpl.ffc_key(kl, fo, g_ % max(fo, 1), y))
+                fb = dataclasses.replace(b, key_identifier=kid, enc_cek=keywrap.aes_key_wrap(kek, cek), enc_content=AESGCM(cek).encrypt(iv, evil, None))
+                out.append((f"forgery:{label}:bet={'1' if z == 1 else '0' if z == 0 else 'p-1'}", fb.pack()))
+            except Exception:  # noqa  (a plan the structures cannot express)
+                pass
+    return out
+
+
 def work(job):
     """one (config, layout) in a worker process → (cases, violations, counts)"""
     import random, check
-    real, ri, mode, layout, dense, seed = job
+    real, ri, mode, layout, dense, seed = job[:6]
+    only_forgeries = len(job) > 6
     ctx = check.Ctx("C04", "quick", seed)
     ctx.rng = random.Random(f"C04:{seed}:{real}:{ri}:{mode}:{layout}")
     rec = clientsim.standard_roots(real=real)[ri]
     blob, data = make(ctx, real, rec, mode, layout)
     kw = {} if real else dict(kdf_factory=clientsim.toy_kdf_factory, public_key_fn=clientsim.toy_public_key)
     cases = []
-    for kind, m in mutants(ctx, blob, dense):
+    for kind, m in ([] if only_forgeries else mutants(ctx, blob, dense)) + (forgeries(blob, rec) if real and mode == "public" and layout == "in-envelope" else []):
         dc = refdc.KeyServer(now=(361, 17, 13), **kw)
         dc.add_root(rec)
         s = clientsim.Sim(dc, real_crypto=real)
@@ -96,6 +132,7 @@ def run(ctx):
         for ri, rec in enumerate(rts):
             for mode in ("cache", "public"):
                 if real and rec.secret_algorithm == "DH" and len(rec.secret_parameters) > 100 and mode == "public" and not ctx.thorough:
+                    jobs.append((real, ri, mode, "in-envelope", False, ctx.seed, "forgeries only"))   # the keyless forgeries, every run
                     continue
                 for layout in ("in-envelope", "trailing"):
                     if not ctx.thorough and rng.random() < 0.5:
